@@ -76,68 +76,121 @@ def rows_are(ctx, clause, sel, base, start, count, step=1):
     ctx.ensure(clause + ":step", z3.Implies(cnt > 1, core.term(sel.step) == core.term(step)))
 
 
-@contract("C18", "mdtraj/formats/hdf5.py", "HDF5TrajectoryFile.read", cases=["n", "rest"],
-          covers=["returned-frames", "at-end"], replay="cursor:h5")
-def h5_read(ctx, case):
-    N, pos, n = cursor_inputs(ctx)
+def register_cursor(file, cls, factory, fields_of, posfield, replay, whence2=True, empty_is=None, len_ok=True):
+    """Registers the read / seek / tell(+len) contracts of one array-backed file class.
+    factory(ctx, N, pos) -> (handle Obj, {field: Base});  fields_of(result) -> {field: value}."""
+
+    @contract("C18", file, f"{cls}.read", cases=["n", "rest"], covers=["returned-frames", "at-end"], replay=replay)
+    def _read(ctx, case):
+        N, pos, n = cursor_inputs(ctx)
+        h, bases = factory(ctx, N, pos)
+        if case == "n":
+            out = ctx.call_method(h, "read", n_frames=n)
+            expect = smin(n, N - pos)
+        else:
+            out = ctx.call_method(h, "read")
+            expect = N - pos
+        ctx.ensure("no-exception", not out.raised)
+        if out.raised:
+            return
+        newpos = h.fields[posfield]
+        ctx.ensure("position-advanced-by-frames-read", core.term(newpos) == core.term(pos + expect))
+        ctx.ensure("rep:0<=pos<=N", z3.And(core.term(newpos) >= 0, core.term(newpos) <= core.term(N)))
+        vals = fields_of(out.value)
+        if vals is None:
+            ctx.cover("at-end")
+            ctx.ensure("empty-only-at-end", core.term(expect) == 0)
+            return
+        ctx.cover("returned-frames")
+        for name, base in bases.items():
+            rows_are(ctx, name, vals.get(name), base, pos, expect)
+
+    @contract("C18", file, f"{cls}.seek", cases=["abs", "rel"] + (["end"] if whence2 else []), replay=replay)
+    def _seek(ctx, case):
+        N, pos, _ = cursor_inputs(ctx)
+        h, _b = factory(ctx, N, pos)
+        k = ctx.int("k")
+        if case == "abs":
+            ctx.assume(k >= 0, k <= N)
+            out = ctx.call_method(h, "seek", k)
+            want = k
+        elif case == "rel":
+            ctx.assume(pos + k >= 0, pos + k <= N)
+            out = ctx.call_method(h, "seek", k, 1)
+            want = pos + k
+        else:
+            ctx.assume(k <= 0, N + k >= 0)
+            out = ctx.call_method(h, "seek", k, 2)
+            want = N + k
+        ctx.ensure("no-exception", not out.raised)
+        if out.raised:
+            return
+        ctx.ensure("position", core.term(h.fields[posfield]) == core.term(want))
+        t = ctx.call_method(h, "tell")
+        ctx.ensure("tell-reports-position", (not t.raised) and core.term(t.value) == core.term(want))
+
+    @contract("C18", file, f"{cls}.tell", replay=replay)
+    def _tell(ctx, case):
+        N, pos, _ = cursor_inputs(ctx)
+        h, _b = factory(ctx, N, pos)
+        t = ctx.call_method(h, "tell")
+        ctx.ensure("tell==pos", (not t.raised) and core.term(t.value) == core.term(pos))
+        ctx.ensure("tell-does-not-move", core.term(h.fields[posfield]) == core.term(pos))
+        if len_ok:
+            ln = ctx.call_method(h, "__len__")
+            ctx.ensure("len==N", (not ln.raised) and core.term(ln.value) == core.term(N))
+            ctx.ensure("len-does-not-move", core.term(h.fields[posfield]) == core.term(pos))
+
+
+def _h5_factory(ctx, N, pos):
     h, nodes = h5_file(ctx, N, pos)
-    if case == "n":
-        out = ctx.call_method(h, "read", n_frames=n)
-        expect = smin(n, N - pos)
-    else:
-        out = ctx.call_method(h, "read")
-        expect = N - pos
-    ctx.ensure("no-exception", not out.raised)
-    if out.raised:
-        return
-    newpos = h.fields["_frame_index"]
-    ctx.ensure("position-advanced-by-frames-read", core.term(newpos) == core.term(pos + expect))
-    ctx.ensure("rep:0<=pos<=N", z3.And(core.term(newpos) >= 0, core.term(newpos) <= core.term(N)))
-    if isinstance(out.value, list) and out.value == []:
-        ctx.cover("at-end")
-        ctx.ensure("empty-only-at-end", core.term(expect) == 0)
-        return
-    ctx.cover("returned-frames")
-    fr = out.value
-    rows_are(ctx, "coordinates", fr.coordinates, nodes["coordinates"].base, pos, expect)
-    rows_are(ctx, "time", fr.time, nodes["time"].base, pos, expect)
-    rows_are(ctx, "cell_lengths", fr.cell_lengths, nodes["cell_lengths"].base, pos, expect)
-    rows_are(ctx, "cell_angles", fr.cell_angles, nodes["cell_angles"].base, pos, expect)
+    return h, {k: v.base for k, v in nodes.items()}
 
 
-@contract("C18", "mdtraj/formats/hdf5.py", "HDF5TrajectoryFile.seek", cases=["abs", "rel", "end"],
-          replay="cursor:h5")
-def h5_seek(ctx, case):
-    N, pos, _ = cursor_inputs(ctx)
-    h, _nodes = h5_file(ctx, N, pos)
-    k = ctx.int("k")
-    if case == "abs":
-        ctx.assume(k >= 0, k <= N)
-        out = ctx.call_method(h, "seek", k)
-        want = k
-    elif case == "rel":
-        ctx.assume(pos + k >= 0, pos + k <= N)
-        out = ctx.call_method(h, "seek", k, 1)
-        want = pos + k
-    else:
-        ctx.assume(k <= 0, N + k >= 0)
-        out = ctx.call_method(h, "seek", k, 2)
-        want = N + k
-    ctx.ensure("no-exception", not out.raised)
-    if out.raised:
-        return
-    ctx.ensure("position", core.term(h.fields["_frame_index"]) == core.term(want))
-    t = ctx.call_method(h, "tell")
-    ctx.ensure("tell-reports-position", (not t.raised) and core.term(t.value) == core.term(want))
+def _h5_fields(res):
+    if isinstance(res, list) and res == []:
+        return None
+    return {"coordinates": res.coordinates, "time": res.time, "cell_lengths": res.cell_lengths,
+            "cell_angles": res.cell_angles}
 
 
-@contract("C18", "mdtraj/formats/hdf5.py", "HDF5TrajectoryFile.tell", replay="cursor:h5")
-def h5_tell(ctx, case):
-    N, pos, _ = cursor_inputs(ctx)
-    h, _ = h5_file(ctx, N, pos)
-    t = ctx.call_method(h, "tell")
-    ctx.ensure("tell==pos", (not t.raised) and core.term(t.value) == core.term(pos))
-    ctx.ensure("tell-does-not-move", core.term(h.fields["_frame_index"]) == core.term(pos))
-    ln = ctx.call_method(h, "__len__")
-    ctx.ensure("len==N", (not ln.raised) and core.term(ln.value) == core.term(N))
-    ctx.ensure("len-does-not-move", core.term(h.fields["_frame_index"]) == core.term(pos))
+register_cursor("mdtraj/formats/hdf5.py", "HDF5TrajectoryFile", _h5_factory, _h5_fields, "_frame_index", "cursor:h5")
+
+
+# ---------------------------------------------------------------------------------------------
+# NetCDFTrajectoryFile (position field: _frame_index ; data: self._handle.variables[name])
+
+
+class NCHandle:
+    """Assumed contract of a netCDF4.Dataset / scipy netcdf_file opened for reading:
+    `variables` maps names to per-frame variables, `dimensions['atom']` is the atom count."""
+
+    def __init__(self, variables, n_atoms):
+        self.variables = variables
+        self.dimensions = {"atom": n_atoms}
+
+    def sym_getattr(self, interp, name):
+        if name in ("variables", "dimensions"):
+            return getattr(self, name)
+        raise core.Unsupported("NCHandle." + name)
+
+
+def _nc_factory(ctx, N, pos):
+    mod = ctx.module("mdtraj/formats/netcdf.py")
+    cls = mod.globals["NetCDFTrajectoryFile"]
+    A = SInt(z3.Int("A"))
+    names = ["coordinates", "time", "cell_lengths", "cell_angles"]
+    variables = {n: StoredField(Base(n, N), n_atoms=A) for n in names}
+    h = Obj(cls)
+    h.fields.update(_closed=False, _mode="r", _frame_index=pos, _needs_initialization=False,
+                    _handle=NCHandle(variables, A))
+    return h, {k: v.base for k, v in variables.items()}
+
+
+def _nc_fields(res):
+    if isinstance(res[0], models.EmptyArr):
+        return None
+    return dict(zip(["coordinates", "time", "cell_lengths", "cell_angles"], res))
+
+
+register_cursor("mdtraj/formats/netcdf.py", "NetCDFTrajectoryFile", _nc_factory, _nc_fields, "_frame_index", "cursor:nc")
